@@ -2,4 +2,4 @@ package checks
 
 import "verifharness/core"
 
-func c10Genesis(w *core.WorkerCtx)    {}
+func c10Genesis(w *core.WorkerCtx) {}
